@@ -71,3 +71,10 @@ Proof.
   intros a xs tl Hc Hn. cbn [improper_or_wrong]. exists SData. now apply list_elems_improper.
 Qed.
 Print Assumptions C14_reject.
+
+(* the same for tuples and tuple structs: every improper list, also one longer
+   than the tuple, and every other kind is rejected *)
+Theorem C14_reject_tuple : forall (cast_f32 : f64 -> f64) ts v,
+  improper_or_wrong v -> de cast_f32 (TyTuple ts) v = SErr SData.
+Proof. exact reject_tuple. Qed.
+Print Assumptions C14_reject_tuple.
